@@ -46,6 +46,7 @@ type State struct {
 	done   bool
 	dead   bool
 	epoch  int
+	wt     map[string]bool // references whose well-typedness fact is already on the path
 	spec   int // >0: evaluating specification code (no obligations, calls merged)
 	quant  int // >0: inside quantifier body, do not name terms
 }
@@ -86,6 +87,12 @@ func (s *State) clone() *State {
 	for k, v := range s.subst {
 		n.subst[k] = v
 	}
+	if s.wt != nil {
+		n.wt = make(map[string]bool, len(s.wt))
+		for k := range s.wt {
+			n.wt[k] = true
+		}
+	}
 	n.pc = append([]Term(nil), s.pc...)
 	n.pcB = append([]bool(nil), s.pcB...)
 	n.defs = append([]string(nil), s.defs...)
@@ -124,6 +131,9 @@ type Engine struct {
 	pathSeq   int
 	curInstr  ssa.Instruction
 	curFrame  *Frame
+	typeIDs   map[string]int
+	contracts map[string]*Contract
+	modularUsed map[string]bool
 }
 
 func (e *Engine) fresh(prefix string) string { e.n++; return fmt.Sprintf("%s!%d", prefix, e.n) }
@@ -260,18 +270,6 @@ func (e *Engine) heapArr(s *State, name, sort string) Term {
 		s.hlog = map[string]*HLog{}
 	}
 	s.hlog[name] = &HLog{Base: t}
-	// well-typed heap at entry: every stored reference is nil or allocated
-	if s.epoch == 0 {
-		switch {
-		case strings.HasSuffix(name, "$v_ptr") || strings.HasSuffix(name, "$v_ref"):
-			ks := sort[len("(Array Ref (Array ") : len(sort)-len(" Ref))")]
-			s.pc = append(s.pc, Term{S: fmt.Sprintf("(forall ((m!w Ref) (k!w %s)) (or (= (select (select %s m!w) k!w) 0) (select alloc!0 (select (select %s m!w) k!w))))", ks, nm, nm), Sort: "Bool"})
-			s.pcB = append(s.pcB, false)
-		case strings.HasSuffix(name, "$ptr") || strings.HasSuffix(name, "$map") || strings.HasSuffix(name, "$ref_sl"):
-			s.pc = append(s.pc, Term{S: fmt.Sprintf("(forall ((r!w Ref)) (or (<= (select %s r!w) 0) (select alloc!0 (select %s r!w))))", nm, nm), Sort: "Bool"})
-			s.pcB = append(s.pcB, false)
-		}
-	}
 	return t
 }
 
@@ -348,6 +346,23 @@ func (e *Engine) newRef(s *State) Term {
 	e.assume(s, refPos(r))
 	e.assume(s, not(sel(s.alloc, r, "Bool")))
 	s.alloc = e.name(s, sto(s.alloc, r, boolT(true)))
+	return r
+}
+
+// wtRef assumes the well-typedness of a reference read from the heap: it is nil or an allocated object. This
+// holds in every Go execution (the allocation map only grows); instantiating it at the loads keeps the VCs ground.
+func (e *Engine) wtRef(s *State, r Term) Term {
+	if r.C != nil || strings.HasPrefix(r.S, "ref!") || s.quant > 0 {
+		return r
+	}
+	if s.wt == nil {
+		s.wt = map[string]bool{}
+	}
+	if s.wt[r.S] {
+		return r
+	}
+	s.wt[r.S] = true
+	e.assume(s, or(app("<=", "Bool", r, refT(0)), sel(s.alloc, r, "Bool")))
 	return r
 }
 
@@ -567,7 +582,7 @@ func (e *Engine) loadHeapVal(s *State, nm string, ref Term, t types.Type) Val {
 			e.heapArr(s, nm+"$"+c+"_sl", refArrSort(so))
 			return e.read1(s, nm+"$"+c+"_sl", ref, so)
 		}
-		sv := SliceV{g("ref"), g("off"), g("len"), g("cap"), u.Elem()}
+		sv := SliceV{e.wtRef(s, g("ref")), g("off"), g("len"), g("cap"), u.Elem()}
 		e.sliceWF(s, sv)
 		return sv
 	case *types.Array:
@@ -576,7 +591,7 @@ func (e *Engine) loadHeapVal(s *State, nm string, ref Term, t types.Type) Val {
 		return ArrV{e.read1(s, nm+"$arr"+sortTag(so), ref, arrSort(so)), u.Len(), u.Elem()}
 	case *types.Pointer:
 		e.heapArr(s, nm+"$ptr", refArrSort("Ref"))
-		r := e.read1(s, nm+"$ptr", ref, "Ref")
+		r := e.wtRef(s, e.read1(s, nm+"$ptr", ref, "Ref"))
 		return e.ptrFromRef(r, u.Elem())
 	case *types.Struct:
 		sv := StructV{T: u}
@@ -596,10 +611,10 @@ func (e *Engine) loadHeapVal(s *State, nm string, ref Term, t types.Type) Val {
 		return e.funcs[id.C.Int64()-1]
 	case *types.Interface:
 		e.heapArr(s, nm+"$dyn", refArrSort("Ref"))
-		return e.ifaceFromRef(e.read1(s, nm+"$dyn", ref, "Ref"))
+		return e.ifaceFromRef(e.wtRef(s, e.read1(s, nm+"$dyn", ref, "Ref")))
 	case *types.Map:
 		e.heapArr(s, nm+"$map", refArrSort("Ref"))
-		return MapV{Ref: e.read1(s, nm+"$map", ref, "Ref"), K: u.Key(), V: u.Elem()}
+		return MapV{Ref: e.wtRef(s, e.read1(s, nm+"$map", ref, "Ref")), K: u.Key(), V: u.Elem()}
 	case *types.Basic:
 		so, _ := sortOf(t)
 		if nm == "C" {
@@ -1179,13 +1194,13 @@ func (e *Engine) mgetVal(s *State, m MapV, k Term) Val {
 	cs := mapComps(m)
 	switch u := m.V.Underlying().(type) {
 	case *types.Slice:
-		sv := SliceV{e.mread(s, m, cs[0].name, cs[0].sort, k), e.mread(s, m, cs[1].name, cs[1].sort, k), e.mread(s, m, cs[2].name, cs[2].sort, k), e.mread(s, m, cs[3].name, cs[3].sort, k), u.Elem()}
+		sv := SliceV{e.wtRef(s, e.mread(s, m, cs[0].name, cs[0].sort, k)), e.mread(s, m, cs[1].name, cs[1].sort, k), e.mread(s, m, cs[2].name, cs[2].sort, k), e.mread(s, m, cs[3].name, cs[3].sort, k), u.Elem()}
 		e.sliceWF(s, sv)
 		return sv
 	case *types.Pointer:
-		return e.ptrFromRef(e.mread(s, m, cs[0].name, cs[0].sort, k), u.Elem())
+		return e.ptrFromRef(e.wtRef(s, e.mread(s, m, cs[0].name, cs[0].sort, k)), u.Elem())
 	case *types.Interface:
-		r := e.mread(s, m, cs[0].name, cs[0].sort, k)
+		r := e.wtRef(s, e.mread(s, m, cs[0].name, cs[0].sort, k))
 		return e.ifaceFromRef(r)
 	default:
 		return e.mread(s, m, cs[0].name, cs[0].sort, k)
